@@ -410,6 +410,37 @@ fn judge<T: Subject>(
             f.push(Finding { class: class.into(), detail: format!("{} left changed metadata{extra}: {}", outcome.tag(), ch.join(", ")) });
         }
     }
+    // ---- seeds unchanged on failure: a compressed object whose read failed must not pair its old bodies with the
+    // stream's mask seeds. Decided only when the header fields are unchanged (same structure before and after);
+    // seeds of a sub-object that had been read completely are the container's partial commit (F6b), as above.
+    if !matches!(outcome, Outcome::Ok(_)) && v.pristine && pp.seed_vals.len() == pre.seed_vals.len() {
+        let mut own = 0usize;
+        let mut part = 0usize;
+        for ((sc0, s0), (_sc1, s1)) in pre.seed_vals.iter().zip(pp.seed_vals.iter()) {
+            if s0 == s1 {
+                continue;
+            }
+            let path = pre.scopes.get(*sc0).map(|sc| sc.2.clone());
+            let completed = path
+                .and_then(|p| fed_parsed.scopes.iter().find(|sc| sc.2 == p))
+                .map(|sc| sc.1 != usize::MAX && if eof { sc.1 <= consumed } else { sc.1 < consumed })
+                .unwrap_or(false);
+            if completed {
+                part += 1;
+            } else {
+                own += 1;
+            }
+        }
+        if own > 0 {
+            f.push(Finding {
+                class: "seed_changed_on_error".into(),
+                detail: format!("{} left the header fields unchanged but overwrote {own} of {} mask seeds of an object that was not read completely", outcome.tag(), pre.seed_vals.len()),
+            });
+        }
+        if part > 0 {
+            f.push(Finding { class: "container_partial_commit".into(), detail: format!("{} left {part} seeds of completely read sub-objects changed", outcome.tag()) });
+        }
+    }
     // ---- exercise
     if (touch && !v.broken) || force_touch {
         let r = guarded(|| recv.touch());
